@@ -32,6 +32,10 @@ def main():
             if ctx.lean.infra_error:
                 print("infrastructure error:", ctx.lean.infra_error)
                 return 2
+            # T1-s: the Python functions this property's hand-written model mirrors still have the source text the model was validated against
+            import srcpin
+            for name, ok, detail in srcpin.obligations(prop):
+                ctx.lean.add(name, "source-pin", ok, detail)
             for o in ctx.lean.broken:
                 print(f"broken obligation: {o['name']} ({o['kind']}): {o['detail']}")
         ctx.driver = leanio.Driver()
